@@ -1051,8 +1051,19 @@ def diff_model_impl(model, view):
         return [] if me == ve else [["<load>", "", me, view["error"]]]
     g = strip_view(view)
     diffs = []
+    hidden = set()
     for mp in sorted(set(model["modules"]) | set(g)):
         a, b = model["modules"].get(mp), g.get(mp)
+        if a is not None and b is None:
+            # The view enumerates the modules it reaches through members; the model's table lists every source file.  A module whose
+            # member in its parent was replaced by something else (an alias that does not lead back to it) cannot be visited: no difference
+            # when the model predicts exactly that member (the name comparison of the parent covers it), nor below such a module.
+            par, _, nm = mp.rpartition(".")
+            pa, pb = model["modules"].get(par), g.get(par)
+            if par in hidden or (pa is not None and pb is not None and pb["names"].get(nm) is not None
+                                 and pa["names"].get(nm) == pb["names"].get(nm) and pb["names"].get(nm)[:2] != ["module", mp]):
+                hidden.add(mp)
+                continue
         if a is None or b is None:
             diffs.append([mp, "<module>", a is not None, b is not None])
             continue
@@ -1413,6 +1424,23 @@ def hand_packages():
                                 ["setall", "list", [["s", "f"], ["s", "h"]]]])]})
     # witnesses of repaired findings (F1, F2, F6, F9, F11): they must now agree with the interpreter
     H.extend(v for k, v in all_witnesses().items() if k in REPAIRED and k not in OUTSIDE_MODEL)
+    # F7, second form (round 5, shrunk from a thorough alarm): n0.f is bound twice by wildcard imports (the first alias is replaced by the second),
+    # the second from `s.t` read while pending (its local f); the dead alias takes the live one's place in the register of the replaced object
+    H.append({"name": "h7", "order": ["h7.s", "h7.s.t", "h7.s.t.d0", "h7.m0", "h7.s.n0", "h7"], "modules": [
+        _m(["h7"], True, []),
+        _m(["h7", "m0"], False, [["star", ["h7", "s", "t"], "rel"], ["from", ["h7", "s", "t", "d0"], "f", None, "rel"]]),
+        _m(["h7", "s"], True, [["def", "f", "func"]]),
+        _m(["h7", "s", "n0"], False, [["star", ["h7", "m0"], "rel"], ["star", ["h7", "s", "t"], "abs"]]),
+        _m(["h7", "s", "t"], True, [["def", "f", "func"], ["star", ["h7", "s"], "abs"]]),
+        _m(["h7", "s", "t", "d0"], False, [["def", "f", "func"], ["star", ["h7", "s", "t"], "abs"]])]})
+    # a submodule whose member in its parent is replaced by an alias that does not lead back to it (not visited in Griffe's tree)
+    H.append({"name": "h8", "order": ["h8.m1", "h8.m0", "h8.s", "h8.s.t", "h8.m2", "h8"], "modules": [
+        _m(["h8"], True, [["star", ["h8", "m2"], "abs"]]),
+        _m(["h8", "m0"], False, [["from", ["h8"], "m1", None, "abs"]]),
+        _m(["h8", "m1"], False, []),
+        _m(["h8", "m2"], False, [["from", ["h8", "s", "t"], "m1", None, "abs"]]),
+        _m(["h8", "s"], True, [["star", ["h8", "m0"], "rel"]]),
+        _m(["h8", "s", "t"], True, [["star", ["h8", "s"], "abs"]])]})
     return H
 
 
